@@ -66,6 +66,8 @@ def render(case):
         text = nl + nl + "  " + nl + text
     if "notrailingnewline" not in deco:
         text += nl
+    if "bom" in deco:
+        text = "\ufeff" + text       # a byte order mark is ignored by GraphQL (spec 2.1.1) but is part of the text
     return text
 
 
